@@ -317,7 +317,9 @@ def unify (s : State) (f : String) (args : List Arg) : State × Res :=
 /-- A factory call. -/
 def mkNode (s : State) (f : String) (args : List Arg) : State × Res :=
   if isUnified f then
-    if args.all (fun a => a.valid s || (match a with | .wh _ => true | _ => false)) then unify s f args else (s, .bad)
+    if args.all (fun a => a.valid s || (match a with
+                                         | .wh i => (match s.whs[i]? with | some (some _) => true | _ => false)
+                                         | _ => false)) then unify s f args else (s, .bad)
   else if isGenerative f ∧ args.all (·.valid s) then
     match compose f args s.size with
     | some rs => allocate s rs
